@@ -47,6 +47,23 @@ Section FMapFacts.
         intros ->. rewrite keqb_refl in E0. discriminate.
   Qed.
 
+  Lemma fset_fset (m : list (K * A)) k a b : fset keqb (fset keqb m k a) k b = fset keqb m k b.
+  Proof.
+    induction m as [|[k0 v0] r IH]; cbn.
+    - rewrite keqb_refl. reflexivity.
+    - destruct (keqb k0 k) eqn:E0; cbn.
+      + rewrite keqb_refl. reflexivity.
+      + rewrite E0, IH. reflexivity.
+  Qed.
+  Lemma fdel_fset (m : list (K * A)) k a : fdel keqb (fset keqb m k a) k = fdel keqb m k.
+  Proof.
+    induction m as [|[k0 v0] r IH]; cbn.
+    - rewrite keqb_refl. reflexivity.
+    - destruct (keqb k0 k) eqn:E0; cbn.
+      + rewrite keqb_refl. reflexivity.
+      + rewrite E0, IH. reflexivity.
+  Qed.
+
   Lemma fget_in (m : list (K * A)) k v : fget keqb m k = Some v -> In (k, v) m.
   Proof.
     induction m as [|[k0 v0] r IH]; cbn; [discriminate|].
@@ -62,6 +79,10 @@ Lemma zget_zset {A} (m : list (Z * A)) k v k' : zget (zset m k v) k' = if k =? k
 Proof. apply (fget_fset Z.eqb zeqb_eq). Qed.
 Lemma zget_zdel {A} (m : list (Z * A)) k k' : zget (zdel m k) k' = if k =? k' then None else zget m k'.
 Proof. apply (fget_fdel Z.eqb zeqb_eq). Qed.
+Lemma zset_zset {A} (m : list (Z * A)) k a b : zset (zset m k a) k b = zset m k b.
+Proof. apply (fset_fset Z.eqb zeqb_eq). Qed.
+Lemma zdel_zset {A} (m : list (Z * A)) k a : zdel (zset m k a) k = zdel m k.
+Proof. apply (fdel_fset Z.eqb zeqb_eq). Qed.
 Lemma pget_pset {A} (m : list ((Z * Z) * A)) k v k' : pget (pset m k v) k' = if peqb k k' then Some v else pget m k'.
 Proof. apply (fget_fset peqb peqb_eq). Qed.
 Lemma zget_zset_same {A} (m : list (Z * A)) k v : zget (zset m k v) k = Some v.
@@ -272,6 +293,18 @@ Section Measures.
     - intros j' Hne. unfold bterm. rewrite zget_zdel. destruct (Z.eqb_spec j j'); [congruence|reflexivity].
   Qed.
 
+  (* a borrow record flagged as handed over to an auction: its collateral leaves the pledged sum *)
+  Lemma pledged_flag B nb j b b' i :
+    zget B j = Some b -> b_liq b' = true -> 1 <= j <= Z.of_nat nb ->
+    pledged (zset B j b') nb i = pledged B nb i + (if b_lend b =? i then bdelta b (- b_in b) else 0).
+  Proof.
+    intros Hg Hq Hj. unfold pledged.
+    rewrite (sumz_upd (bterm B i) (bterm (zset B j b') i) nb j Hj).
+    - unfold bterm, bdelta. rewrite zget_zset_same, Hg, Hq. rewrite andb_false_r.
+      destruct (b_lend b =? i); destruct (b_liq b); cbn; lia.
+    - intros j' Hne. unfold bterm. rewrite zget_zset_other by congruence. reflexivity.
+  Qed.
+
   Definition okey (b : borrowpos) (k : Z * Z) : bool :=
     match bkey cfg b with Some k' => peqb k' k | None => false end.
   Definition odelta (b : borrowpos) (stable : bool) (k : Z * Z) (d : Z) : Z :=
@@ -308,6 +341,17 @@ Section Measures.
     - unfold oterm, odelta, okey, b_in_key. rewrite zget_zdel, Z.eqb_refl, Hg.
       destruct (bkey cfg b); cbn; [|lia]. destruct (peqb _ k); destruct (b_liq b); destruct (Bool.eqb _ _); cbn; lia.
     - intros j' Hne. unfold oterm, b_in_key. rewrite zget_zdel. destruct (Z.eqb_spec j j'); [congruence|reflexivity].
+  Qed.
+
+  Lemma bor_sum_flag B nb j b b' stable k :
+    zget B j = Some b -> b_liq b' = true -> 1 <= j <= Z.of_nat nb ->
+    bor_sum cfg (zset B j b') nb stable k = bor_sum cfg B nb stable k + odelta b stable k (- b_out b).
+  Proof.
+    intros Hg Hq Hj. unfold bor_sum.
+    rewrite (sumz_upd (oterm cfg B stable k) (oterm cfg (zset B j b') stable k) nb j Hj).
+    - unfold oterm, odelta, okey, b_in_key. rewrite zget_zset_same, Hg, Hq. rewrite andb_false_r. cbn [andb].
+      destruct (bkey cfg b); cbn; [|lia]. destruct (peqb _ k); destruct (b_liq b); destruct (Bool.eqb _ _); cbn; lia.
+    - intros j' Hne. unfold oterm, b_in_key. rewrite zget_zset_other by congruence. reflexivity.
   Qed.
 
   Lemma bids_upd B nb k j b b' :
